@@ -49,7 +49,9 @@ def packet_inv(p):
             and all(p.goff[j + 1] == p.goff[j] + 12 + len(p.data[j][1])
                     for j in range(n))
             and all(16 <= p.goff[j] and p.goff[j] <= p.size
-                    for j in range(n + 1)))
+                    for j in range(n + 1))
+            and all(all(p.goff[j] + 12 <= p.goff[k] for k in range(j + 1, n + 1))
+                    for j in range(n)))
 
 
 def dgram_typed(d):
@@ -76,22 +78,43 @@ def header_ok(F, p, index, ethertype):
             and u16(F, 14) == 0)
 
 
-def dgram_ok(F, p, g, sterile_cmd=None):
-    """datagram g of packet p sits in frame F exactly where append reported"""
+def dg_cmd(F, p, g, sterile_cmd=None):
+    d = p.data[g]
+    return (F[p.goff[g]] == (d[0].value if sterile_cmd is None else sterile_cmd)
+            and F[p.goff[g] + 1] == d[3])
+
+
+def dg_addr(F, p, g):
+    st = p.goff[g]
+    d = p.data[g]
+    return ((s16(F, st + 2) == d[4] and u16(F, st + 4) == d[5])
+            if len(d) == 6 else s32(F, st + 2) == d[4])
+
+
+def dg_len(F, p, g):
+    st = p.goff[g]
+    ln = len(p.data[g][1])
+    return (u16(F, st + 6) == ln + (32768 if g < len(p.data) - 1 else 0)
+            and ln < 2048 and u16(F, st + 8) == 0)
+
+
+def dg_data(F, p, g):
     st = p.goff[g]
     d = p.data[g]
     ln = len(d[1])
-    n = len(p.data)
-    return (F[st] == (d[0].value if sterile_cmd is None else sterile_cmd)
-            and F[st + 1] == d[3]
-            and ((s16(F, st + 2) == d[4] and u16(F, st + 4) == d[5])
-                 if len(d) == 6 else s32(F, st + 2) == d[4])
-            and u16(F, st + 6) == ln + (32768 if g < n - 1 else 0)
-            and ln < 2048
-            and u16(F, st + 8) == 0
-            and F[st + 10:st + 10 + ln] == d[1]
-            and u16(F, st + 10 + ln) == d[2]
+    return (F[st + 10:st + 10 + ln] == d[1]
             and st + 10 + ln + 2 == p.goff[g + 1])
+
+
+def dg_wkc(F, p, g):
+    d = p.data[g]
+    return u16(F, p.goff[g] + 10 + len(d[1])) == d[2]
+
+
+def dgram_ok(F, p, g, sterile_cmd=None):
+    """datagram g of packet p sits in frame F exactly where append reported"""
+    return (dg_cmd(F, p, g, sterile_cmd) and dg_addr(F, p, g) and dg_len(F, p, g)
+            and dg_data(F, p, g) and dg_wkc(F, p, g))
 
 
 # ----------------------------------------------------------------- contracts
@@ -147,14 +170,22 @@ assemble = Contract(
         invariant={
             "length": "len(b''.join(ret)) == self.goff[_i]",
             "header": "header_ok(b''.join(ret), self, index, ethertype)",
-            "done": "implies(g < _i, dgram_ok(b''.join(ret), self, g))",
+            "done_cmd": "implies(g < _i, dg_cmd(b''.join(ret), self, g))",
+            "done_addr": "implies(g < _i, dg_addr(b''.join(ret), self, g))",
+            "done_len": "implies(g < _i, dg_len(b''.join(ret), self, g))",
+            "done_data": "implies(g < _i, dg_data(b''.join(ret), self, g))",
+            "done_wkc": "implies(g < _i, dg_wkc(b''.join(ret), self, g))",
             "range": "0 <= _i and _i <= len(self.data)",
         },
         modifies=["ret"])},
     ensures={
         "length_padded": "len(result) == max(self.size, 46)",
         "header": "header_ok(result, self, index, ethertype)",
-        "datagram": "dgram_ok(result, self, g)",
+        "dg_cmd_index": "dg_cmd(result, self, g)",
+        "dg_address": "dg_addr(result, self, g)",
+        "dg_length_more": "dg_len(result, self, g)",
+        "dg_data_at_reported_window": "dg_data(result, self, g)",
+        "dg_wkc_at_reported_stop": "dg_wkc(result, self, g)",
         "padding_only_beyond_size": "len(result) >= self.size",
     },
     modifies=[],
